@@ -69,6 +69,7 @@ type OpDesc struct {
 	ScalarMult bool // one of the five C01 entry points
 	FieldNine  bool // one of the nine C09 operations
 	Pseudo     bool // harness action, not library code
+	Dynamic    bool // not in the table: an API addition driven through reflection (dynamic.go)
 	Fn         func(o *Operands) Outcome
 }
 
@@ -197,11 +198,27 @@ func CheckAlphabetClosed() error {
 	}
 	seen := map[string]bool{}
 	var missing []string
-	for tn, t := range types {
+	kinds := map[string]Kind{"Point": KPoint, "Scalar": KScalar, "Element": KElem}
+	for _, tn := range []string{"Point", "Scalar", "Element"} {
+		t := types[tn]
 		for i := 0; i < t.NumMethod(); i++ {
 			n := tn + "." + t.Method(i).Name
 			seen[n] = true
 			if opIndex[n] == nil {
+				if d := registerDynamic(n, kinds[tn], t, t.Method(i)); d != nil {
+					Alphabet = append(Alphabet, d)
+					opIndex[n] = d
+					DynamicOps = append(DynamicOps, n)
+					switch d.Recv {
+					case KPoint:
+						pointOps = append(pointOps, n)
+					case KScalar:
+						scalarOps = append(scalarOps, n)
+					case KElem:
+						elemOps = append(elemOps, n)
+					}
+					continue
+				}
 				missing = append(missing, n)
 			}
 		}
